@@ -12,6 +12,16 @@ KANI = [
     dict(name="c19_slice_cnt", file="verif_core", props=["C19", "C12"], tier="quick", weight=3,
          functions=["IteratorExt::slice instantiated at a default-nth/nth_back/count iterator (as path::Components)"],
          bounds="len 0..=8; -len <= left <= len+1; -len-1 <= right <= len+1; unwind 11"),
+    dict(name="c19_slice_filter5", file="verif_core", props=["C19", "C12"], tier="thorough", weight=6, cap=1800,
+         functions=["IteratorExt::slice instantiated at Filter<Copied<slice::Iter<u8>>> (inexact size_hint)"],
+         bounds="underlying len 0..=5, every keep mask; |left|,|right| <= kept+1; unwind 11"),
+    dict(name="c19_drop_filter5", file="verif_core", props=["C19", "C12"], tier="thorough", weight=5, cap=1800,
+         functions=["IteratorExt::drop at Filter<..> (inexact size_hint)"], bounds="underlying len 0..=5, every keep mask, |n| <= kept+1; unwind 12"),
+    dict(name="c19_slice_inexact_hint", file="verif_core", props=["C19", "C12"], tier="quick", weight=4,
+         functions=["IteratorExt::slice at an iterator whose size_hint upper bound is inexact (slack 0..=3)"],
+         bounds="len 0..=8; |left|,|right| <= len+1; slack 0..=3; unwind 14"),
+    dict(name="c19_drop_inexact_hint", file="verif_core", props=["C19", "C12"], tier="quick", weight=3,
+         functions=["IteratorExt::drop at an iterator with inexact size_hint"], bounds="len 0..=8; |n| <= len+1; slack 0..=3; unwind 14"),
     dict(name="c19_drop_sliceiter", file="verif_core", props=["C19", "C12"], tier="quick", weight=2,
          functions=["IteratorExt::drop at Copied<slice::Iter<u8>>"], bounds="len 0..=8; n: every isize; unwind 11"),
     dict(name="c19_drop_cnt", file="verif_core", props=["C19", "C12"], tier="quick", weight=2,
@@ -94,6 +104,7 @@ LEVEL = {
     "C13": "proof",
     "C14": "model_checking",
     "C16": "model_checking",
+    "C15": "model_checking",
     "C11": "model_checking",
     "C18": "model_checking",
 }
@@ -122,6 +133,10 @@ ASSUMPTIONS = {
         "Kani harnesses kani/verif_entry.rs build MemfsEntry/StdfsEntry by struct literal (files: None)",
         "outside the claim: tree traversal of recursive chmod/chown",
     ],
+    "C15": MIRSYM_ASSUMPTIONS + [
+        "text (str/String/Path) is a symbolic sequence of Unicode scalars with UTF-8 byte-length arithmetic; slicing panics exactly when the byte index is not a char boundary",
+        "only sys::{trim_prefix,trim_suffix,has,has_prefix,has_suffix} are encoded; parse_paths under C18; the component-level helpers are outside the claim",
+    ],
     "C18": MIRSYM_ASSUMPTIONS + [
         "environment stub: env::var(const NAME) is a symbolic Option<String> per name; str::split(':') is a symbolic list of bounded length with a symbolic emptiness flag per segment",
         "PathBuf::from, PathExt::mash, exists, str::parse::<u32> are uninterpreted functions (mash itself belongs to C15, not claimed)",
@@ -141,7 +156,8 @@ ASSUMPTIONS = {
     "C19": [
         "Kani 0.68 / CBMC 6.11 model of the dev profile; unwinding assertions on",
         "two instantiations of the generic helpers: Copied<slice::Iter<u8>> and a default-method iterator (Cnt)",
-        "outside the claim: defer on unwinding (Kani models panic as abort), StringExt::{size,to_bool,trim_suffix} on symbolic text",
+        "mirsym job c19_text: StringExt::{size,trim_suffix} over text of <=4 scalars, to_bool over ASCII text of <=6 chars (to_lowercase modelled for ASCII only)",
+        "outside the claim: defer on unwinding (Kani models panic as abort), to_bool on non-ASCII text",
     ],
     "C12": [
         "only the panic-class checks (arithmetic overflow, index/slice bounds, unwrap, explicit panic) of the units listed are decided",
